@@ -50,8 +50,16 @@ PAppend == /\ ppc = "append" /\ sp' = sp \o ptodo /\ ppc' = "commit"
            /\ UNCHANGED <<sl, si, ptodo, rounds, crounds, dk>> /\ ClientUnch
 PCommit == /\ ppc = "commit"
            /\ si' = si \cup {[k |-> ptodo[i], pos |-> Len(sp) - Len(ptodo) + i] : i \in DOMAIN ptodo}
-           /\ ppc' = "idle" /\ ptodo' = <<>>
-           /\ UNCHANGED <<sl, sp, rounds, crounds, dk>> /\ ClientUnch
+           /\ ppc' = "packed"
+           /\ UNCHANGED <<sl, sp, ptodo, rounds, crounds, dk>> /\ ClientUnch
+(* clean_loose_per_pack: unlink exactly the loose files this call packed (not others that happen to have a row) *)
+PCleanOwn(k) == /\ ppc = "packed" /\ k \in Range(ptodo) \cap sl /\ sl' = sl \ {k}
+                /\ UNCHANGED <<sp, si, ptodo, ppc, rounds, crounds, dk>> /\ ClientUnch
+PDone == /\ ppc = "packed" /\ ppc' = "idle" /\ ptodo' = <<>>
+         /\ UNCHANGED <<sl, sp, si, rounds, crounds, dk>> /\ ClientUnch
+(* PCleanOwn* . PDone in one step (binding) *)
+PCleanOwnAll == /\ ppc = "packed" /\ sl' = sl \ Range(ptodo) /\ ppc' = "idle" /\ ptodo' = <<>>
+                /\ UNCHANGED <<sp, si, rounds, crounds, dk>> /\ ClientUnch
 (* clean_storage (and clean_loose_per_pack): unlink the loose files whose key has a committed row *)
 CStart == /\ ppc = "idle" /\ crounds > 0 /\ ppc' = "clean" /\ crounds' = crounds - 1
           /\ UNCHANGED <<sl, sp, si, ptodo, rounds, dk>> /\ ClientUnch
@@ -67,7 +75,8 @@ DAppend(k) == /\ dk = "" /\ ppc \in {"idle", "clean"} /\ k \in DirectKeys \ Know
               /\ UNCHANGED <<sl, si, ptodo, ppc, rounds, crounds>> /\ ClientUnch
 DCommit == /\ dk # "" /\ si' = si \cup {[k |-> dk, pos |-> Len(sp)]} /\ dk' = ""
            /\ UNCHANGED <<sl, sp, ptodo, ppc, rounds, crounds>> /\ ClientUnch
-Clients == \/ \E k \in Keys : Add(k) \/ CleanOne(k) \/ DAppend(k)
+Clients == \/ \E k \in Keys : Add(k) \/ CleanOne(k) \/ DAppend(k) \/ PCleanOwn(k)
+           \/ PDone
            \/ \E o \in Perms(sl \ KeysOf(si)) : PStart(o)
            \/ PAppend \/ PCommit \/ CStart \/ CleanDone \/ DCommit
 
